@@ -39,6 +39,8 @@ def impl_history(bits, server_id, v0, ops):
                     out.append(("Added", loop.run_until_complete(ctl.add(object()))))
                 except TooManyConnections:
                     out.append("Refused")
+                except Exception as e:  # noqa   (neither an id nor the refusal the property names)
+                    out.append(("Failed", type(e).__name__ + ": " + str(e)[:80]))
             else:
                 loop.run_until_complete(ctl.remove(o[1]))
                 out.append("Removed")
@@ -72,7 +74,7 @@ def gen_history(rng, bits, n):
                 live.append(i)
                 if rng.random() < 0.1:
                     survivors.add(i)
-            except TooManyConnections:
+            except Exception:  # noqa   (TooManyConnections, or a failure that impl_history reports)
                 pass
         elif r < 0.97:
             cands = [i for i in live if i not in survivors] or live
@@ -93,6 +95,8 @@ def oracle_history(res, sid, bits, ops):
     for r, o in zip(res, ops):
         if o[0] == "remove":
             live.discard(o[1])
+        if isinstance(r, tuple) and r[0] == "Failed":
+            return f"registering a connection failed with {r[1]} ({len(live)} of {2 ** bits} ids in use)"
         if isinstance(r, tuple):
             i = r[1]
             if i in live:
@@ -283,6 +287,7 @@ def run(ctx: core.Ctx):
     for (bits, sid, v0, ops), m in zip(plans, model):
         got, ctl = impl_history(bits, sid, v0, ops)
         mm = [("Added", x[1]) if isinstance(x, tuple) else x for x in m]
+        got_cmp = got
         key = (bits, sid, v0, tuple(ops))
         distinct.add(key)
         if any(x == "Refused" for x in got) or len(ops) > 2 ** bits:
@@ -335,9 +340,12 @@ def run(ctx: core.Ctx):
             pass
         some = next(iter(ctl._connections))
         loop.run_until_complete(ctl.remove(some))
-        i = loop.run_until_complete(ctl.add(None))
+        try:
+            i = loop.run_until_complete(ctl.add(None))
+        except Exception as e:  # noqa
+            i = f"{type(e).__name__}: {e}"[:100]
         if i != some:
-            witness = witness or dict(kind="recover", problem=f"after removing {some} got {i}")
+            witness = witness or dict(kind="recover", problem=f"registry full, one client refused, then connection {some} ended: the next client got {i}")
         loop.close()
     ctx.evals += steps
     samples.append(dict(kind="long-history", steps=steps, includes="wrap-around with survivors, full registry, recovery"))
@@ -365,7 +373,7 @@ def run(ctx: core.Ctx):
         rule="add/remove histories (biased to full registries, wrap-around start values, unknown ids) on LocalControl with "
              "2/3/4-bit sequence subclasses and the real 16-bit width, result by result against ConnId.run; configured server ids "
              "incl. 0 and >= 2^16; long real-width histories with survivors + completely full registry checked with the property "
-             "oracle; wire: handshake id = CONNECTION_ID() = KILL target, ERR 1040 when full, recovery. non-trivial = history with a "
+             "oracle (any failure of add() other than TooManyConnections is an outcome the oracle reports); wire: handshake id = CONNECTION_ID() = KILL target, ERR 1040 when full, recovery. non-trivial = history with a "
              "refusal or longer than the sequence space",
         samples=samples,
         distinct=len(distinct),
